@@ -93,6 +93,8 @@ PW = "aw_datastore/storages/peewee.py"
 ME = "aw_datastore/storages/memory.py"
 DS = "aw_datastore/datastore.py"
 VARIANTS = [
+    ("B bulk insert writes the tail of the batch as event_rows[-rest:] (rest may be 0: the whole batch again)", "aw_datastore/storages/sqlite.py", "        self.conn.executemany(query, event_rows)\n", "        rest = len(event_rows) % 100\n        self.conn.executemany(query, event_rows[: len(event_rows) - rest])\n        self.conn.executemany(query, event_rows[-rest:])\n", "NEG-SLICE"),
+    ("OK bulk insert writes the tail only when there is one", "aw_datastore/storages/sqlite.py", "        self.conn.executemany(query, event_rows)\n", "        rest = len(event_rows) % 100\n        self.conn.executemany(query, event_rows[: len(event_rows) - rest])\n        if rest:\n            self.conn.executemany(query, event_rows[-rest:])\n", "ok"),
     ("B Bucket.get defaults to a limit of 10000", "aw_datastore/datastore.py", "        limit: int = -1,", "        limit: int = 10000,", "WRAP"),
     ("B memory store keeps a sorted view per bucket", "aw_datastore/storages/memory.py", "        self._metadata: Dict[str, dict] = dict()\n", "        self._metadata: Dict[str, dict] = dict()\n        self._sorted: Dict[str, list] = {}\n", "DERIVED-STATE"),
 
